@@ -197,3 +197,32 @@ func (w *RPCWorld) Start() {
 	vsched.GoNamed("serve-a", func() { w.ServeErr[0] = w.A.Serve() })
 	vsched.GoNamed("serve-b", func() { w.ServeErr[1] = w.B.Serve() })
 }
+
+// IDClient is a jsonrpc2.Requester with ids other than the default small integers: "big" numbers
+// beyond 2^53 that differ only in their low bits (nanosecond clocks, 64-bit random ids), or
+// "string" ids - both legal JSON-RPC.
+type IDClient struct {
+	Kind string
+	n    int64
+}
+
+func (c *IDClient) Request(method string, params ...interface{}) (*jsonrpc2.Message, error) {
+	msg := &jsonrpc2.Message{Request: &jsonrpc2.Request{Method: method}, Version: jsonrpc2.Version}
+	c.n++ // (calls are made one thread at a time under the controlled scheduler)
+	var err error
+	switch c.Kind {
+	case "big":
+		msg.ID = json.RawMessage(fmt.Sprint(int64(1)<<53 + c.n))
+	case "string":
+		msg.ID, err = json.Marshal(fmt.Sprintf("req-%d", c.n))
+	default:
+		msg.ID, err = json.Marshal(c.n)
+	}
+	if err != nil {
+		return nil, err
+	}
+	if msg.Request.Params, err = json.Marshal(params); err != nil {
+		return nil, err
+	}
+	return msg, nil
+}
